@@ -43,11 +43,31 @@ Theorem C19_tz : forall (d : zoned) z1 z2,
 Proof. exact tz_keeps_instant. Qed.
 Print Assumptions C19_tz.
 
+(* The time-zone clause on zoned values (instant, zone): date-time ± duration keeps the
+   zone of the date-time, converting to another zone before or after the arithmetic gives
+   the same result, and a difference of two date-times does not depend on their zones. *)
+Theorem C19_tz_arith : forall (d : zoned) (q : Q) (z z2 : string),
+  (forall d', zadd d q = Ok d' -> snd d' = snd d) /\
+  (forall d', zsub d q = Ok d' -> snd d' = snd d) /\
+  zadd (tz_convert d z) q = res_map (fun d' => tz_convert d' z) (zadd d q) /\
+  zsub (tz_convert d z) q = res_map (fun d' => tz_convert d' z) (zsub d q) /\
+  (forall b : zoned, zdiff (tz_convert d z) (tz_convert b z2) = zdiff d b).
+Proof. exact zoned_arith. Qed.
+Print Assumptions C19_tz_arith.
+
+(* the round trip on zoned values: the zone survives as well *)
+Theorem C19_zoned_add_sub : forall (d d' : zoned) q, in_range (fst d) = true ->
+  zadd d q = Ok d' -> zsub d' q = Ok d /\ Qabs (zdiff d' d - q) <= half_ns.
+Proof. exact zoned_add_sub. Qed.
+Print Assumptions C19_zoned_add_sub.
+
 (* Non-vacuity: 2000-01-01T00:00:00Z + 1.5000000004 s, and the two range errors *)
 Example C19_ex :
   in_range 946684800000000000 = true
   /\ add_dt 946684800000000000 (15000000004 # 10000000000) = Ok 946684801500000000%Z
   /\ add_dt 946684800000000000 (-(25 # 10)) = Ok 946684797500000000%Z
   /\ add_dt ts_max (1 # 1) = Err DateTimeOutOfRange
-  /\ add_dt 0 (631107417601 # 1) = Err DurationOutOfRange.
+  /\ add_dt 0 (631107417601 # 1) = Err DurationOutOfRange
+  /\ zadd (tz_convert (946684800000000000%Z, "UTC"%string) "Asia/Kolkata"%string) (3 # 2)
+     = Ok (946684801500000000%Z, "Asia/Kolkata"%string).
 Proof. vm_compute. repeat split; reflexivity. Qed.
